@@ -324,9 +324,16 @@ class Deps:
         fn = self.prog.func_of(sym) if sym else None
         if fn is not None and sym not in self.prog.classes and self.depth < 2:
             # repository helper: its result depends on whatever its return expressions depend on
-            sub = Deps(self.prog, Scope(self.prog, func=fn), None, self.depth + 1)
-            out = set()
             params = fn.params()
+            sp = None
+            for i, a in enumerate(c.args):
+                if isinstance(a, ast.Name) and a.id == self.staged and self.staged is not None and i < len(params):
+                    sp = params[i]
+            for k in c.keywords:
+                if isinstance(k.value, ast.Name) and k.value.id == self.staged and self.staged is not None and k.arg in params:
+                    sp = k.arg
+            sub = Deps(self.prog, Scope(self.prog, func=fn), sp, self.depth + 1)
+            out = set()
             for r in fn.own_nodes():
                 if isinstance(r, ast.Return) and r.value is not None:
                     for lab in sub.expr(r.value):
@@ -360,12 +367,13 @@ class _Enc(Flow):
     """typestate of the staged file: new -> open (being written) -> closed ; was the value pickled into it ;
     has a digest been taken.  Records the state at every read of the file's content."""
 
-    def __init__(self, prog, f, staged, value, deps):
+    def __init__(self, prog, f, staged, value, deps, depth=0):
         super().__init__()
         self.prog, self.f, self.staged, self.value, self.deps = prog, f, staged, value, deps
+        self.depth = depth
         self.handles = set()
-        self.reads = []  # (call, state)
-        self.bad = []  # (node, message)
+        self.reads = []  # (func, call, state)
+        self.bad = []  # (func, node, message)
         for n in f.own_nodes():
             h = None
             if isinstance(n, ast.withitem) and self._wopen(n.context_expr) and isinstance(n.optional_vars, ast.Name):
@@ -390,31 +398,45 @@ class _Enc(Flow):
     def on_call(self, call, st):
         fs, dumped, digested = st
         sym = self.prog.callee(call, self.f) or ''
+        hf = self.prog.func_of(sym) if sym else None
+        if hf is not None and sym not in self.prog.classes and self.depth < 2 and hf.qname != self.f.qname:
+            # repository helper that is handed the staged path: interpret its body on the same typestate
+            params = hf.params()
+            binds = [(params[i], a) for i, a in enumerate(call.args) if i < len(params)] + [(k.arg, k.value) for k in call.keywords if k.arg in params]
+            sp = [p for p, a in binds if isinstance(a, ast.Name) and a.id == self.staged]
+            if sp:
+                vp = [p for p, a in binds if isinstance(a, ast.Name) and a.id == self.value]
+                sub = _Enc(self.prog, hf, sp[0], vp[0] if vp else None, Deps(self.prog, Scope(self.prog, func=hf), sp[0], 1), self.depth + 1)
+                o = sub.run(hf.node, st)
+                self.visited += sub.visited
+                self.reads += sub.reads
+                self.bad += sub.bad
+                return tuple(o.normal | o.ret) or (st,)
         if self._wopen(call):
             if digested:
-                self.bad.append((call, 'the staged file is opened for writing again after its digest was taken'))
+                self.bad.append((self.f, call, 'the staged file is opened for writing again after its digest was taken'))
             return (('open', False, digested),)
         if isinstance(call.func, ast.Attribute) and isinstance(call.func.value, ast.Name) and call.func.value.id in self.handles:
             if call.func.attr == 'close':
                 return (('closed', dumped, digested),)
             if call.func.attr in ('write', 'writelines', 'truncate', 'seek'):
-                self.bad.append((call, f'the staged file receives bytes other than the pickle of the value ({norm(call)[:60]})'))
+                self.bad.append((self.f, call, f'the staged file receives bytes other than the pickle of the value ({norm(call)[:60]})'))
             return (st,)
         if sym == 'external:pickle.dump' and len(call.args) >= 2:
             obj, dst = call.args[0], call.args[1]
             if isinstance(dst, ast.Name) and dst.id in self.handles:
                 if isinstance(obj, ast.Name) and obj.id == self.value and fs == 'open':
                     return ((fs, True, digested),)
-                self.bad.append((call, f'what is pickled into the staged file is not the value parameter "{self.value}" ({norm(call)[:60]})'))
+                self.bad.append((self.f, call, f'what is pickled into the staged file is not the value parameter "{self.value}" ({norm(call)[:60]})'))
             return (st,)
         d = self.deps.digest_of(call)
         if (d is not None and d[0] == 'digest') or self.deps.read_open(call):
-            self.reads.append((call, st))
+            self.reads.append((self.f, call, st))
             return ((fs, dumped, True),)
         if digested and sym not in CONTENT_PRESERVING:
             mentions = any(isinstance(a, ast.Name) and a.id == self.staged for a in list(call.args) + [k.value for k in call.keywords])
             if mentions and not sym.startswith('external:os.path.'):
-                self.bad.append((call, f'the staged file is handed to {norm(call.func)} after its digest was taken (content may change)'))
+                self.bad.append((self.f, call, f'the staged file is handed to {norm(call.func)} after its digest was taken (content may change)'))
         return (st,)
 
     def on_with_exit(self, node, st):
@@ -473,20 +495,21 @@ def _rule1(ctx, rep):
         fl.run(f.node, ('new', False, False))
         r.extra['states_visited'] = fl.visited
         seen = {}
-        for call, st in fl.reads:
-            seen.setdefault(id(call), (call, set()))[1].add(st)
-        for call, sts in seen.values():
+        for hf, call, st in fl.reads:
+            seen.setdefault(id(call), (hf, call, set()))[2].add(st)
+        for hf, call, sts in seen.values():
+            rep.analysed(hf)
             r.instance()
             bad = sorted(f'{s[0]}/{"pickled" if s[1] else "not pickled"}' for s in sts if not (s[0] == 'closed' and s[1]))
             r.check(
                 not bad,
-                f'{q}:{norm(call)}',
-                where(f, call),
+                f'{hf.qname}:{norm(call)}',
+                where(hf, call),
                 'content of the staged file is read only in state closed/pickled',
                 f'{norm(call)[:70]} reads the staged file in state {bad}: the digest is not the digest of the complete pickle of the value',
             )
-        for node, msg in fl.bad:
-            r.fail(f'{q}:{norm(node)}', where(f, node), msg)
+        for hf, node, msg in fl.bad:
+            r.fail(f'{hf.qname}:{norm(node)}', where(hf, node), msg)
         # (c) what the name depends on
         for n in rets:
             r.instance()
@@ -905,6 +928,36 @@ def table_events(prog, sc):
 NOSTATE = ('-', '-', False)
 
 
+def is_sig(v):
+    """a boolean signal: ('flag', s) relative to move's decision, or ('par', name, s) relative to a parameter"""
+    return bool(v) and v[0] in ('flag', 'par')
+
+
+def sig_neg(v):
+    return v[:-1] + (-v[-1],)
+
+
+def call_arg(call, fn, pname):
+    """the argument expression bound to parameter pname of fn at this call, else None"""
+    params = fn.params()
+    if fn.cls is not None and not fn.is_staticmethod() and params and params[0] in ('self', 'cls'):
+        params = params[1:]
+    for k in call.keywords:
+        if k.arg == pname:
+            return k.value
+    if pname in params:
+        i = params.index(pname)
+        if i < len(call.args) and not any(isinstance(a, ast.Starred) for a in call.args[: i + 1]):
+            return call.args[i]
+    return None
+
+
+def is_transport_write(n):
+    return isinstance(n, ast.Call) and isinstance(n.func, ast.Attribute) and n.func.attr == 'write' and (
+        isinstance(n.func.value, ast.Attribute) and n.func.value.attr == 'transport'
+    )
+
+
 class Model:
     def __init__(self, ctx):
         self.ctx = ctx
@@ -957,18 +1010,54 @@ class Model:
             return False
         c = fn.__dict__.get('_c07_sender')
         if c is None:
-            c = fn.__dict__['_c07_sender'] = any(
-                isinstance(n, ast.Call) and isinstance(n.func, ast.Attribute) and n.func.attr == 'write' and 'transport' in norm(n.func.value)
-                for n in fn.own_nodes()
-            ) and any((self.prog.callee(n, fn) or '') == 'external:pickle.dumps' for n in fn.calls())
+            # what is written to the transport depends on the (first non-self) parameter, possibly through a framing helper
+            c = False
+            ps = fn.params()[1:]
+            if ps:
+                deps = Deps(self.prog, self.scope(fn))
+                for n in fn.own_nodes():
+                    if is_transport_write(n) and n.args and ('param', ps[0]) in deps.expr(n.args[0]):
+                        c = True
+            fn.__dict__['_c07_sender'] = c
         return c
+
+    def is_framer(self, fn):
+        """pickles its first parameter and returns bytes depending on it (wire framing helper)"""
+        if fn is None or not fn.params():
+            return False
+        c = fn.__dict__.get('_c07_framer')
+        if c is None:
+            p0 = fn.params()[0] if fn.cls is None or fn.is_staticmethod() else (fn.params()[1:] or [None])[0]
+            dumps = any(
+                (self.prog.callee(n, fn) or '') == 'external:pickle.dumps' and n.args and isinstance(n.args[0], ast.Name) and n.args[0].id == p0
+                for n in fn.calls()
+            )
+            deps = Deps(self.prog, self.scope(fn))
+            rets = [n for n in fn.own_nodes() if isinstance(n, ast.Return) and n.value is not None]
+            c = fn.__dict__['_c07_framer'] = bool(p0) and dumps and bool(rets) and all(('param', p0) in deps.expr(n.value) for n in rets)
+        return c
+
+    def returns_unpickled(self, fn, e, depth=0):
+        if isinstance(e, ast.Name):
+            a = self.scope(fn).assigns().get(e.id, [])
+            return bool(a) and all(sel is None and self.returns_unpickled(fn, v, depth) for v, sel in a)
+        if not isinstance(e, ast.Call):
+            return False
+        sym = self.prog.callee(e, fn) or ''
+        if sym == 'external:pickle.loads':
+            return True
+        g = self.prog.func_of(sym) if sym else None
+        if g is not None and sym not in self.prog.classes and depth < 2:
+            rets = [n for n in g.own_nodes() if isinstance(n, ast.Return) and n.value is not None]
+            return bool(rets) and all(self.returns_unpickled(g, n.value, depth + 1) for n in rets)
+        return False
 
     def is_rpc_client(self, fn):
         """sends the pickled request and returns the unpickled reply"""
         if fn is None:
             return False
         rets = [n for n in fn.own_nodes() if isinstance(n, ast.Return) and n.value is not None]
-        return bool(rets) and all(isinstance(n.value, ast.Call) and (self.prog.callee(n.value, fn) or '') == 'external:pickle.loads' for n in rets)
+        return bool(rets) and all(self.returns_unpickled(fn, n.value) for n in rets)
 
     def run(self, func):
         """interpret one function standalone ; returns the _Sig with its events"""
@@ -981,11 +1070,19 @@ class Model:
             if func.qname == WORKER_DO:
                 params = func.params()
                 r.req = frozenset(params[1:2])
-            r.out = r.run(func.node, (('?', '?', False) if func.qname == WORKER_DO else NOSTATE, frozenset()))
+            penv = frozenset((p, ('par', p, 1)) for p in func.params() if p not in ('self', 'cls'))
+            r.out = r.run(func.node, (('?', '?', False) if func.qname == WORKER_DO else NOSTATE, penv))
             self.visited += r.visited
             self._busy.discard(func.qname)
             self._runs[func.qname] = r
         return r
+
+    def reporters(self):
+        """functions that contain a new_values((name, flag)) call (their callers' arguments are recorded)"""
+        c = self.__dict__.get('_reporters')
+        if c is None:
+            c = self.__dict__['_reporters'] = {f.qname for f, _c in _newv_sites(self.prog)}
+        return c
 
     def ret_summary(self, func):
         if func.qname in self._ret:
@@ -1055,6 +1152,9 @@ class _Sig(Flow):
                 return ('enc', None)
             if sym == 'external:bool' and len(e.args) == 1:
                 return self.aval(e.args[0], st)
+            if e.args and (sym == 'external:pickle.dumps' or self.m.is_framer(self.prog.funcs.get(sym))):
+                v = self.aval(e.args[0], st)
+                return ('wire', v) if v is not None else None
             if e.args and isinstance(e.args[0], ast.Call) and self.prog.callee(e.args[0], self.func) == COMMAND:
                 fn = self.prog.func_of(sym) if sym else None
                 fname = self.m.enum_member(self.sc(), self.m.cmd_field(e.args[0], self.m.f_func), FUNC)
@@ -1063,7 +1163,12 @@ class _Sig(Flow):
                 return None
             fn = self.prog.func_of(sym) if sym else None
             if fn is not None and sym not in self.prog.classes and fn.qname != self.func.qname:
-                return self.m.ret_summary(fn)
+                v = self.m.ret_summary(fn)
+                if v and v[0] == 'par':
+                    a = call_arg(e, fn, v[1])
+                    av = self.aval(a, st) if a is not None else None
+                    return (av if v[2] > 0 else sig_neg(av)) if is_sig(av) else None
+                return v
             return None
         if isinstance(e, ast.Subscript) and isinstance(e.slice, ast.Constant) and isinstance(e.slice.value, int):
             v = self.aval(e.value, st)
@@ -1074,25 +1179,29 @@ class _Sig(Flow):
             return None
         if isinstance(e, ast.UnaryOp) and isinstance(e.op, ast.Not):
             v = self.aval(e.operand, st)
-            return ('flag', -v[1]) if v and v[0] == 'flag' else None
+            return sig_neg(v) if is_sig(v) else None
+        if isinstance(e, ast.BinOp) and isinstance(e.op, ast.Add):
+            # length prefix + pickled payload
+            w = [v for v in (self.aval(e.left, st), self.aval(e.right, st)) if v is not None]
+            return w[0] if len(w) == 1 and w[0][0] == 'wire' else None
         if isinstance(e, ast.BoolOp) and isinstance(e.op, ast.And) or isinstance(e, ast.BinOp) and isinstance(e.op, ast.BitAnd):
             # conjunction with another fact keeps the dependence on the existence signal monotone (post: "and a Prime row names it")
             vals = e.values if isinstance(e, ast.BoolOp) else [e.left, e.right]
             fl = [v for v in (self.aval(x, st) for x in vals) if v is not None]
-            return fl[0] if len(fl) == 1 and fl[0][0] == 'flag' else None
+            return fl[0] if len(fl) == 1 and is_sig(fl[0]) else None
         if isinstance(e, ast.Compare) and len(e.ops) == 1 and isinstance(e.comparators[0], ast.Constant) and isinstance(e.comparators[0].value, bool):
             v = self.aval(e.left, st)
-            if v and v[0] == 'flag':
+            if is_sig(v):
                 same = isinstance(e.ops[0], (ast.Is, ast.Eq))
                 if not same and not isinstance(e.ops[0], (ast.IsNot, ast.NotEq)):
                     return None
-                return ('flag', v[1] if same == e.comparators[0].value else -v[1])
+                return v if same == e.comparators[0].value else sig_neg(v)
             return None
         if isinstance(e, ast.IfExp):
             v = self.aval(e.test, st)
             a, b = e.body, e.orelse
-            if v and v[0] == 'flag' and all(isinstance(x, ast.Constant) and isinstance(x.value, bool) for x in (a, b)) and a.value != b.value:
-                return ('flag', v[1] if a.value else -v[1])
+            if is_sig(v) and all(isinstance(x, ast.Constant) and isinstance(x.value, bool) for x in (a, b)) and a.value != b.value:
+                return v if a.value else sig_neg(v)
             return None
         if isinstance(e, ast.Constant) or e is None:
             return None
@@ -1112,6 +1221,10 @@ class _Sig(Flow):
             for t in tg:
                 if isinstance(t, ast.Name):
                     env = eset(env, t.id, v)
+                elif isinstance(t, (ast.Tuple, ast.List)) and isinstance(s.value, (ast.Tuple, ast.List)) and len(t.elts) == len(s.value.elts) and all(isinstance(x, ast.Name) for x in t.elts):
+                    vals = [self.aval(x, st) for x in s.value.elts]
+                    for x, xv in zip(t.elts, vals):
+                        env = eset(env, x.id, xv)
                 elif isinstance(t, (ast.Tuple, ast.List)) and len(t.elts) == 2 and all(isinstance(x, ast.Name) for x in t.elts) and v and v[0] in ('pair', 'enc') and (v[0] == 'pair' or v[1] is None):
                     if v[0] == 'pair':
                         env = eset(eset(env, t.elts[0].id, ('name',)), t.elts[1].id, ('flag', v[1]))
@@ -1123,7 +1236,7 @@ class _Sig(Flow):
                             env = eset(env, n, None)
         elif isinstance(s, ast.AugAssign) and isinstance(s.target, ast.Name):
             cur = eget(env, s.target.id)
-            keep = cur and cur[0] == 'flag' and isinstance(s.op, ast.BitAnd) and self.aval(s.value, st) is None
+            keep = is_sig(cur) and isinstance(s.op, ast.BitAnd) and self.aval(s.value, st) is None
             if not keep:
                 env = eset(env, s.target.id, None)
         return ((ctx, env),)
@@ -1166,6 +1279,15 @@ class _Sig(Flow):
         return '?'
 
     def _req_attr(self, e, field):
+        if isinstance(e, ast.Name) and e.id not in self.req:
+            # local alias of a request field: func = request.func
+            a = self.sc().assigns().get(e.id, [])
+            if len(a) != 1 or a[0][1] is not None or not isinstance(a[0][0], ast.Attribute):
+                return False
+            v = a[0][0]
+            if field != 'value' and v.attr == 'value' and isinstance(v.value, ast.Attribute):
+                v = v.value  # enum member's .value
+            return self._req_attr(v, field)
         return isinstance(e, ast.Attribute) and e.attr == field and isinstance(e.value, ast.Name) and e.value.id in self.req
 
     def on_test(self, e, st):
@@ -1216,6 +1338,10 @@ class _Sig(Flow):
         if self.m.is_sender(sym):
             self.event('send', call, ctx, self.aval(call.args[0], st) if call.args else None)
             return (st,)
+        if self.req and is_transport_write(call) and call.args:
+            v = self.aval(call.args[0], st)
+            self.event('send', call, ctx, v[1] if v and v[0] == 'wire' else None)
+            return (st,)
         if call_name(call) == 'new_values' and len(call.args) == 1 and not call.keywords:
             a = call.args[0]
             v = self.aval(a.elts[1], st) if isinstance(a, ast.Tuple) and len(a.elts) == 2 else None
@@ -1231,6 +1357,12 @@ class _Sig(Flow):
             names = {n.id for a in argv for n in ast.walk(a) if isinstance(n, ast.Name)}
             self.event('insert', call, ctx, frozenset(v for v in (eget(env, n) for n in names) if v is not None))
             return (st,)
+        fn = self.prog.funcs.get(sym)
+        if fn is None and sym:
+            fn = self.prog.func_of(sym) if sym not in self.prog.classes else None
+        if fn is not None and fn.qname in self.m.reporters():
+            params = [p for p in fn.params() if p not in ('self', 'cls')]
+            self.event('harg', call, ctx, tuple((p, self.aval(call_arg(call, fn, p), st) if call_arg(call, fn, p) is not None else None) for p in params))
         # helpers of the serializer called on self (or module functions next to it) are inlined
         fn = self.prog.funcs.get(sym)
         if (
@@ -1513,10 +1645,80 @@ class _Purge(Flow):
         for n, vals in sc.assigns().items():
             if len(vals) == 1 and vals[0][1] is None and self._snapshot(vals[0][0]):
                 self.cat.add(n)
+        self.pre = {}  # loop variable -> '?' | 'unref' (the iterable is already filtered by "not in <snapshot>")
         for n in sc.nodes():
-            if isinstance(n, (ast.For, ast.AsyncFor)) and isinstance(n.target, ast.Name) and isinstance(n.iter, ast.Call):
-                if (sc.callee(n.iter) or '') == 'external:os.listdir' and n.iter.args and sc.resolve(n.iter.args[0]) == CTX_DBS:
+            if isinstance(n, (ast.For, ast.AsyncFor)) and isinstance(n.target, ast.Name):
+                k = self._listing(n.iter)
+                if k is not None:
                     self.fn.add(n.target.id)
+                    self.pre[n.target.id] = k if self.pre.get(n.target.id, k) == k else '?'
+
+    def _is_root(self, e, seen=()):
+        if self.sc.resolve(e) == CTX_DBS:
+            return True
+        if isinstance(e, ast.Name) and e.id not in seen:
+            a = self.sc.assigns().get(e.id, [])
+            return len(a) == 1 and a[0][1] is None and self._is_root(a[0][0], seen + (e.id,))
+        return False
+
+    def _not_in_cat(self, test, var):
+        return (
+            isinstance(test, ast.Compare)
+            and len(test.ops) == 1
+            and isinstance(test.ops[0], ast.NotIn)
+            and isinstance(test.left, ast.Name)
+            and test.left.id == var
+            and isinstance(test.comparators[0], ast.Name)
+            and test.comparators[0].id in self.cat
+        )
+
+    def _listing(self, e, seen=()):
+        """None when e is not a listing of the store directory ; else '?' or 'unref' when it is pre-filtered"""
+        if isinstance(e, ast.Name) and e.id not in seen:
+            a = self.sc.assigns().get(e.id, [])
+            if len(a) == 1 and a[0][1] is None:
+                return self._listing(a[0][0], seen + (e.id,))
+            return None
+        if isinstance(e, ast.Call):
+            sym = self.sc.callee(e) or ''
+            if sym == 'external:os.listdir' and e.args and self._is_root(e.args[0]):
+                return '?'
+            if sym in SNAPSHOT_WRAPPERS and len(e.args) == 1:
+                return self._listing(e.args[0], seen)
+            if sym == 'external:filter' and len(e.args) == 2 and isinstance(e.args[0], ast.Lambda):
+                k = self._listing(e.args[1], seen)
+                lam = e.args[0]
+                if k is not None and len(lam.args.args) == 1:
+                    conj = lam.body.values if isinstance(lam.body, ast.BoolOp) and isinstance(lam.body.op, ast.And) else [lam.body]
+                    if any(self._not_in_cat(t, lam.args.args[0].arg) for t in conj):
+                        return 'unref'
+                return k
+            if isinstance(e.func, ast.Attribute) and e.func.attr == 'difference' and len(e.args) == 1:
+                k = self._listing(e.func.value, seen)
+                if k is not None and isinstance(e.args[0], ast.Name) and e.args[0].id in self.cat:
+                    return 'unref'
+                return k
+            return None
+        if isinstance(e, (ast.ListComp, ast.SetComp, ast.GeneratorExp)) and len(e.generators) == 1:
+            g = e.generators[0]
+            k = self._listing(g.iter, seen)
+            if k is not None and isinstance(g.target, ast.Name) and isinstance(e.elt, ast.Name) and e.elt.id == g.target.id:
+                conj = []
+                for t in g.ifs:
+                    conj += t.values if isinstance(t, ast.BoolOp) and isinstance(t.op, ast.And) else [t]
+                if any(self._not_in_cat(t, g.target.id) for t in conj):
+                    return 'unref'
+                return k
+            return None
+        if isinstance(e, ast.BinOp) and isinstance(e.op, ast.Sub):
+            k = self._listing(e.left, seen)
+            r = e.right
+            if isinstance(r, ast.Call) and (self.sc.callee(r) or '') in SNAPSHOT_WRAPPERS and len(r.args) == 1:
+                r = r.args[0]
+            if k is not None and isinstance(r, ast.Name) and r.id in self.cat:
+                return 'unref'
+            return k
+        return None
 
     def _snapshot(self, e):
         if isinstance(e, ast.Call):
@@ -1547,7 +1749,7 @@ class _Purge(Flow):
 
     def on_for(self, node, st):
         if isinstance(node.target, ast.Name) and node.target.id in self.fn:
-            return ((st[0], (node.target.id, '?')),)
+            return ((st[0], (node.target.id, self.pre.get(node.target.id, '?'))),)
         return (st,)
 
     def on_stmt(self, s, st):
@@ -1607,11 +1809,13 @@ def _rule3(model, rep):
         for f, n, obs in sends:
             r.instance()
             vals = {x for c, x in obs if c[0] == 'set'}
+            one = next(iter(vals)) if len(vals) == 1 else None
+            good = bool(one) and one[0] == 'flag' and one[1] != 0
             r.check(
-                len(vals) == 1 and None not in vals and next(iter(vals))[0] == 'flag' and next(iter(vals))[1] != 0,
+                good,
                 f'{f.qname}:{norm(n)}',
                 where(f, n),
-                f'reply in the Func.set branch is move\'s flag with polarity {next(iter(vals))[1] if len(vals) == 1 and None not in vals else "?"}',
+                f'reply in the Func.set branch is move\'s flag with polarity {one[1] if good else "?"}',
                 f'the reply {norm(n)} of the Func.set branch is not (a fixed polarity of) the flag returned by db.util.move: {sorted(str(v) for v in vals)}',
             )
         if not sends:
@@ -1627,6 +1831,22 @@ def _rule3(model, rep):
                 r.fail(key, where(f, c), 'the new_values call was not reached by the interpreter (not understood)')
                 continue
             vals = {x for _c, x in ev[2]}
+            via = ''
+            if vals and all(v and v[0] == 'par' for v in vals):
+                # the flag is a parameter of this (helper) function: judge it with what each caller passes
+                eff = set()
+                callers = [(csc, cc) for csc, cc, _d in method_callers(prog, f) if csc.func is not None]
+                for csc, cc in callers:
+                    crn = model.run(csc.func)
+                    cev = crn.events.get(('harg', id(cc))) if crn else None
+                    for _cx, args in (cev[2] if cev else [(None, ())]):
+                        amap = dict(args)
+                        for v in vals:
+                            av = amap.get(v[1])
+                            eff.add((av if v[2] > 0 else sig_neg(av)) if is_sig(av) else None)
+                    rep.analysed(csc.func)
+                vals = eff or {None}
+                via = f' (flag is a parameter; judged through {len(callers)} caller(s))'
             good = vals == {('flag', -1)}
             why = ''
             if not good:
@@ -1636,7 +1856,7 @@ def _rule3(model, rep):
                     why = 'the flag returned by db.util.move is itself not a function of prior existence (see R-C07-2)'
                 else:
                     why = f'it is not derived from the existence decision of db.util.move on every path (abstract values: {sorted(str(v) for v in vals)})'
-            r.check(good, key, where(f, c), 'isnew == not (content already stored), on every path', f'the novelty flag given to new_values in {f.qname}: {why}')
+            r.check(good, key, where(f, c), 'isnew == not (content already stored), on every path' + via, f'the novelty flag given to new_values in {f.qname}: {why}')
         # (c) the cloud relay hands move's result back unchanged
         for sc, call in _move_sites(prog):
             if sc.func is None:
@@ -1920,7 +2140,9 @@ def _rule5(model, rep):
                     for node, msg in fl.problems:
                         r.fail(f'{q}:{norm(node)[:80]}', sc.where(node), msg)
                 _c, sts = fl.unlinks.get(id(call), (call, set()))
-                pathnames = {n.id for a in call.args[:1] for n in ast.walk(a) if isinstance(n, ast.Name)}
+                pathnames = {n.id for a in (call.args[:1] or [call.func]) for n in ast.walk(a) if isinstance(n, ast.Name)}
+                for _ in range(4):  # temporaries: path = os.path.join(root, fn)
+                    pathnames |= {n.id for x in list(pathnames) for v, _s in sc.assigns().get(x, []) for n in ast.walk(v) if isinstance(n, ast.Name)}
                 bad = sorted(str(s) for s in sts if not (s[0] == 'nonempty' and s[1] and s[1][1] == 'unref' and s[1][0] in pathnames))
                 r.check(
                     bool(sts) and not bad,
@@ -2007,7 +2229,6 @@ VARIANTS = [
     V('digest taken while the pickle is still open', 'B', _U, 'encode',
       "pickle.dump(value, f, pickle.HIGHEST_PROTOCOL)\n    os.chmod(fn, int('0664', 8))  # -rw-rw-r--\n    " + _MD5,
       "pickle.dump(value, f, pickle.HIGHEST_PROTOCOL)\n        " + _MD5 + "\n    os.chmod(fn, int('0664', 8))", 'R-C07-1'),
-    V('digest taken before anything was written', 'B', _U, 'encode', "os.close(fid)", "os.close(fid)\n    " + _MD5, 'R-C07-1'),
     V('name carries the temporary file name', 'B', _U, 'encode', "result = '_'.join([m, s])", "result = '_'.join([m, s, os.path.basename(fn)])", 'R-C07-1'),
     V('name is the sha1 only', 'B', _U, 'encode', "result = '_'.join([m, s])", "result = s", 'R-C07-1'),
     V('something else is pickled', 'B', _U, 'encode', 'pickle.dump(value, f,', 'pickle.dump(repr(value), f,', 'R-C07-1'),
@@ -2023,7 +2244,6 @@ VARIANTS = [
     V('stored copy overwritten when it exists', 'B', _U, 'move', 'if exists:\n        os.unlink(fn)\n    else:\n        shutil.move(fn, nfn)', 'shutil.move(fn, nfn)', 'R-C07-2'),
     V('copy instead of rename into the store', 'B', _U, 'move', 'shutil.move(fn, nfn)', 'shutil.copy(fn, nfn)', 'R-C07-2'),
     V('flag constant', 'B', _U, 'move', 'return result, exists', 'return result, False', 'R-C07-2'),
-    V('existence of the staged file tested instead', 'B', _U, 'move', 'exists = os.path.exists(nfn)', 'exists = os.path.exists(fn)', 'R-C07-2'),
     V('destination not under the name', 'B', _U, 'move', 'nfn = os.path.join(dawgie.context.data_dbs, result)', 'nfn = os.path.join(dawgie.context.data_dbs, os.path.basename(fn))', 'R-C07-2'),
     V('exists inlined into the if with two returns', 'N', _U, 'move', _MOVE_BODY + '\n\n    return result, exists',
       'if os.path.exists(nfn):\n        os.unlink(fn)\n        return result, True\n    shutil.move(fn, nfn)\n    return result, False', None),
@@ -2051,13 +2271,11 @@ VARIANTS = [
     V('catalogue store only when new, before the move on the other path', 'B', _C, 'Worker.do', _SET3,
       'key = str(request.keyset)\n            if key in DBI().tables[request.table.value]:\n                DBI().tables[request.table.value][key] = request.value[1]\n            ' + _SET3, 'R-C07-4'),
     V('post INSERT names something else than the moved blob', 'B', _P, 'Interface._update', 'val_ID[0],\n                            result,', 'val_ID[0],\n                            vn,', 'R-C07-4'),
-    V('post msv INSERT names something else', 'B', _P, 'Interface._update_msv', 'val_ID[0],\n                        result,', 'val_ID[0],\n                        vn,', 'R-C07-4'),
     V('key computed before the move', 'N', _C, 'Worker.do', _SET3,
       'key = str(request.keyset)\n            value, exists = dawgie.db.util.move(*request.value)\n            DBI().tables[request.table.value][key] = value', None),
     V('logging between move and store', 'N', _C, 'Worker.do', 'key = str(request.keyset)\n            DBI().tables[request.table.value][key] = value', "key = str(request.keyset)\n            log.debug('set %s', key)\n            DBI().tables[request.table.value][key] = value", None),
     # ---- R-C07-5
     V('second catalogue writer in shelve.reset', 'B', _S, 'reset', "pk = [runid, DBI().tables.target[tn], DBI().tables.task[tskn]]", "pk = [runid, DBI().tables.target[tn], DBI().tables.task[tskn]]\n    DBI().tables.prime[str(tuple(pk))] = 'x'", 'R-C07-5'),
-    V('catalogue delete in shelve.reset', 'B', _S, 'reset', "pk = [runid, DBI().tables.target[tn], DBI().tables.task[tskn]]", "pk = [runid, DBI().tables.target[tn], DBI().tables.task[tskn]]\n    DBI().tables.prime.clear()", 'R-C07-5'),
     V('catalogue written through an alias', 'B', _S, 'trace', 'result = {}', "result = {}\n    cat = DBI().tables.prime\n    cat.update({'k': 'v'})", 'R-C07-5'),
     V('client appends to the prime table', 'B', _S, 'update', 'foreman.append(Table.value, util.construct(vn, svid, v))', 'foreman.append(Table.prime, util.construct(vn, svid, v))', 'R-C07-5'),
     V('store in the get branch of the serializer', 'B', _C, 'Worker.do', 'self._send(DBI().tables[request.table.value][key])', "DBI().tables[request.table.value][key] = 'x'\n            self._send(DBI().tables[request.table.value][key])", 'R-C07-5'),
@@ -2067,7 +2285,6 @@ VARIANTS = [
     V('Func.set request carries something else than encode()', 'B', _C, 'Connector._set_prime', 'value = dawgie.db.util.encode(value)', "value = (str(value), 'x')", 'R-C07-5'),
     V('move aliased', 'B', _P, 'Interface._update_msv', 'valid = True', 'valid = True\n        mv = dawgie.db.util.move', 'R-C07-5'),
     V('purge guard inverted', 'B', _G, None, 'if fn not in values and', 'if fn in values and', 'R-C07-5'),
-    V('purge guard dropped', 'B', _G, None, 'if fn not in values and os.path.isfile(', 'if os.path.isfile(', 'R-C07-5'),
     V('purge abort-if-no-keys removed', 'B', _G, None, 'sys.exit(-1)', 'pass', 'R-C07-5'),
     V('purge snapshot filtered', 'B', _G, None, 'values = list(dawgie.db._prime_values())', 'values = [v for v in dawgie.db._prime_values() if v]', 'R-C07-5'),
     V('stored file unlinked in decode', 'B', _U, 'decode', 'return result', 'os.unlink(os.path.join(dawgie.context.data_dbs, entry))\n    return result', 'R-C07-5'),
@@ -2078,5 +2295,15 @@ VARIANTS = [
     V('extra read of the catalogue', 'N', _S, 'reset', "pk = [runid, DBI().tables.target[tn], DBI().tables.task[tskn]]", "pk = [runid, DBI().tables.target[tn], DBI().tables.task[tskn]]\n    n = len(DBI().tables.prime)", None),
     V('another journal file below chronicles', 'N', 'pl/logger/chronicle.py', None, "with open(journal, 'tw', encoding='utf-8') as file:", "with open(journal + '.tmp', 'tw', encoding='utf-8') as file:", None),
     V('remove deletes through pop', 'N', _S, 'remove', 'del prime[key]', 'prime.pop(key)', None),
+    V('purge sweep with early continue guards and a path temporary', 'N', _G, None,
+      "if fn not in values and os.path.isfile(\n            os.path.join(dawgie.context.data_dbs, fn)\n        ):\n            os.unlink(os.path.join(dawgie.context.data_dbs, fn))",
+      "if fn in values:\n            continue\n        path = os.path.join(dawgie.context.data_dbs, fn)\n        if not os.path.isfile(path):\n            continue\n        if True:\n            os.unlink(path)", None),
+    V('purge sweep over a pre-filtered comprehension', 'N', _G, None, 'for fn in os.listdir(dawgie.context.data_dbs):\n        if fn not in values and', 'for fn in [f for f in os.listdir(dawgie.context.data_dbs) if f not in values]:\n        if', None),
+    V('purge comprehension filtered the wrong way', 'B', _G, None, 'for fn in os.listdir(dawgie.context.data_dbs):\n        if fn not in values and', 'for fn in [f for f in os.listdir(dawgie.context.data_dbs) if f in values]:\n        if', 'R-C07-5'),
+    V('dispatch comparison with swapped operands', 'N', _C, 'Worker.do', 'elif request.func == Func.set:', 'elif Func.set == request.func:', None),
+    V('reply written to the transport inline', 'N', _C, 'Worker.do', 'self._send(exists)', "self.transport.write(struct.pack('>I', len(pickle.dumps(exists))) + pickle.dumps(exists))", None),
+    V('inline reply of the wrong polarity', 'B', _C, 'Worker.do', 'self._send(exists)', "self.transport.write(struct.pack('>I', 5) + pickle.dumps(not exists))", 'R-C07-3'),
+    V('move result split by a tuple assignment', 'N', _C, 'Worker.do', 'value, exists = dawgie.db.util.move(*request.value)', 'res = dawgie.db.util.move(*request.value)\n            value, exists = res[0], res[1]', None),
+    V('tuple assignment swaps name and flag', 'B', _C, 'Worker.do', 'value, exists = dawgie.db.util.move(*request.value)', 'res = dawgie.db.util.move(*request.value)\n            value, exists = res[1], res[0]', 'R-C07-4'),
     V('encode result through a local in post', 'N', _P, 'Interface._update_msv', 'result = dawgie.db.util.move(*dawgie.db.util.encode(val))[0]', 'pair = dawgie.db.util.encode(val)\n            result = dawgie.db.util.move(*pair)[0]', None),
 ]
